@@ -293,9 +293,7 @@ func diffSets(got, want []string) (extra, missing []string) {
 
 func (s *rSim) checkAll(after string) {
 	r := s.r
-	if !s.c19 {
-		r.OracleEval()
-	}
+	r.OracleEval()
 	c := s.cache
 	md := s.model
 
@@ -306,7 +304,7 @@ func (s *rSim) checkAll(after string) {
 	}
 	sort.Strings(gotU)
 	if extra, missing := diffSets(gotU, sortedKeys(md.resvs)); len(extra)+len(missing) > 0 {
-		s.fail("primary", "reservationInfos", "after %s: reservationInfos holds %v, expected %v (extra %v missing %v)", after, gotU, sortedKeys(md.resvs), extra, missing)
+		r.Fail("primary", "reservationInfos", "after %s: reservationInfos holds %v, expected %v (extra %v missing %v)", after, gotU, sortedKeys(md.resvs), extra, missing)
 	}
 
 	// 2. ledger of every reservation
@@ -314,7 +312,7 @@ func (s *rSim) checkAll(after string) {
 		ri := c.reservationInfos[types.UID(u)]
 		m := md.resvs[u]
 		if ri == nil {
-			s.fail("primary", "nil-info", "after %s: reservationInfos[%s] is nil", after, u)
+			r.Fail("primary", "nil-info", "after %s: reservationInfos[%s] is nil", after, u)
 		}
 		var gotP []string
 		for pu := range ri.AssignedPods {
@@ -326,7 +324,7 @@ func (s *rSim) checkAll(after string) {
 			if len(missing) > 0 {
 				d = "missing"
 			}
-			s.fail("assigned-pods", d, "after %s: reservation %s AssignedPods=%v, the pods assigned to it are %v", after, u, gotP, sortedKeys(m.assigned))
+			r.Fail("assigned-pods", d, "after %s: reservation %s AssignedPods=%v, the pods assigned to it are %v", after, u, gotP, sortedKeys(m.assigned))
 		}
 		wantDims := m.snap.dims()
 		var gotDims []string
@@ -335,7 +333,7 @@ func (s *rSim) checkAll(after string) {
 		}
 		sort.Strings(gotDims)
 		if strings.Join(gotDims, ",") != strings.Join(wantDims, ",") {
-			s.fail("reserved-dims", "", "after %s: reservation %s ResourceNames=%v, its reserved dimensions are %v", after, u, gotDims, wantDims)
+			r.Fail("reserved-dims", "", "after %s: reservation %s ResourceNames=%v, its reserved dimensions are %v", after, u, gotDims, wantDims)
 		}
 		gotA, exact := fromRL(ri.Allocated)
 		wantA := m.expectedAllocated()
@@ -357,16 +355,16 @@ func (s *rSim) checkAll(after string) {
 			if eqRL(gotA, stored) {
 				detail = "stale-pod-requests"
 			}
-			s.fail("allocated", detail, "after %s: reservation %s Allocated=%s but the assigned pods %v request %s in its reserved dimensions %v", after, u, fmtRL(gotA), sortedKeys(m.assigned), fmtRL(wantA), wantDims)
+			r.Fail("allocated", detail, "after %s: reservation %s Allocated=%s but the assigned pods %v request %s in its reserved dimensions %v", after, u, fmtRL(gotA), sortedKeys(m.assigned), fmtRL(wantA), wantDims)
 		}
 		gotAl, _ := fromRL(ri.Allocatable)
 		if !eqRL(gotAl, m.snap.Alloc) {
-			s.fail("allocatable", "", "after %s: reservation %s Allocatable=%s, the object reserves %s", after, u, fmtRL(gotAl), fmtRL(m.snap.Alloc))
+			r.Fail("allocatable", "", "after %s: reservation %s Allocatable=%s, the object reserves %s", after, u, fmtRL(gotAl), fmtRL(m.snap.Alloc))
 		}
 		gotR, _ := fromRL(ri.Reserved)
 		for _, d := range wantDims {
 			if gotR[d] != m.snap.Inner[d] {
-				s.fail("inner-reserved", "", "after %s: reservation %s Reserved=%s, the object declares %s", after, u, fmtRL(gotR), fmtRL(m.snap.Inner))
+				r.Fail("inner-reserved", "", "after %s: reservation %s Reserved=%s, the object declares %s", after, u, fmtRL(gotR), fmtRL(m.snap.Inner))
 			}
 		}
 	}
@@ -414,7 +412,7 @@ func (s *rSim) checkAll(after string) {
 			want = sortedKeys(wantMatch)
 		}
 		if strings.Join(got, ",") != strings.Join(want, ",") {
-			s.fail("list-all-nodes", fmt.Sprintf("matchable=%v", mode), "after %s: ListAllNodes(%v)=%v, expected %v", after, mode, got, want)
+			r.Fail("list-all-nodes", fmt.Sprintf("matchable=%v", mode), "after %s: ListAllNodes(%v)=%v, expected %v", after, mode, got, want)
 		}
 	}
 	for i := 0; i < s.cfg.Nodes; i++ {
@@ -430,7 +428,7 @@ func (s *rSim) checkAll(after string) {
 		})
 		sort.Strings(got)
 		if strings.Join(got, ",") != strings.Join(wantMatch[n], ",") {
-			s.fail("enumeration", "", "after %s: ForEachMatchableReservationOnNode(%s) offers %v, the matchable reservations there are %v", after, n, got, wantMatch[n])
+			r.Fail("enumeration", "", "after %s: ForEachMatchableReservationOnNode(%s) offers %v, the matchable reservations there are %v", after, n, got, wantMatch[n])
 		}
 	}
 }
@@ -462,16 +460,14 @@ func (s *rSim) checkIndex(after, name string, got map[string]map[types.UID]struc
 				}
 			}
 		}
-		s.fail("index-"+name, detail, "after %s: %s[%s]=%v, expected %v (extra %v missing %v)", after, name, n, g, want[n], extra, missing)
+		s.r.Fail("index-"+name, detail, "after %s: %s[%s]=%v, expected %v (extra %v missing %v)", after, name, n, g, want[n], extra, missing)
 	}
 }
 
 // checkQuiescent compares the cache with the API truth when every listener has caught up and nothing is in flight.
 func (s *rSim) checkQuiescent() {
 	r := s.r
-	if !s.c19 {
-		r.OracleEval()
-	}
+	r.OracleEval()
 	r.Probe("quiescent-check")
 	byUID := map[string]*sResv{}
 	for _, k := range sortedKeys(s.resvStream.idx) {
@@ -484,7 +480,7 @@ func (s *rSim) checkQuiescent() {
 		for _, n := range sortedKeys(idx) {
 			for _, u := range uidSet(idx[n]) {
 				if byUID[u] == nil {
-					s.fail("quiescent-index", "references-deleted-reservation", "%s[%s] references %s which no longer exists (every listener has caught up)", name, n, u)
+					r.Fail("quiescent-index", "references-deleted-reservation", "%s[%s] references %s which no longer exists (every listener has caught up)", name, n, u)
 				}
 			}
 		}
@@ -496,7 +492,7 @@ func (s *rSim) checkQuiescent() {
 	sort.Strings(infoU)
 	for _, u := range infoU {
 		if byUID[u] == nil {
-			s.fail("quiescent-primary", "deleted-reservation-kept", "reservationInfos keeps %s which no longer exists (every listener has caught up)", u)
+			r.Fail("quiescent-primary", "deleted-reservation-kept", "reservationInfos keeps %s which no longer exists (every listener has caught up)", u)
 		}
 	}
 	// every live reservation placed on a node is listed there
@@ -506,7 +502,7 @@ func (s *rSim) checkQuiescent() {
 			continue
 		}
 		if _, ok := c.reservationsOnNode[sn.Node][types.UID(u)]; !ok {
-			s.fail("quiescent-index", "live-reservation-not-listed", "reservation %s is %s on %s but reservationsOnNode[%s]=%v", u, sn.Phase, sn.Node, sn.Node, uidSet(c.reservationsOnNode[sn.Node]))
+			r.Fail("quiescent-index", "live-reservation-not-listed", "reservation %s is %s on %s but reservationsOnNode[%s]=%v", u, sn.Phase, sn.Node, sn.Node, uidSet(c.reservationsOnNode[sn.Node]))
 		}
 		if ri := c.reservationInfos[types.UID(u)]; ri != nil {
 			// the pods assigned to it, per the API
@@ -528,7 +524,7 @@ func (s *rSim) checkQuiescent() {
 				if len(missing) > 0 {
 					d = "missing"
 				}
-				s.fail("quiescent-assigned", d, "reservation %s AssignedPods=%v, the bound live pods recorded as allocated from it are %v", u, got, want)
+				r.Fail("quiescent-assigned", d, "reservation %s AssignedPods=%v, the bound live pods recorded as allocated from it are %v", u, got, want)
 			}
 		}
 	}
